@@ -52,8 +52,9 @@ class GaussianDistribution(BaseDistribution):
         no_of_var = len(variables)
 
         self.variables = variables
-        self.mean = np.asarray(np.reshape(mean, (no_of_var, 1)), dtype=float)
-        self.covariance = np.asarray(cov, dtype=float)
+        # own copies: the caller's arrays must not be shared
+        self.mean = np.array(np.reshape(mean, (no_of_var, 1)), dtype=float)
+        self.covariance = np.array(cov, dtype=float)
         self._precision_matrix = None
 
         if len(mean) != no_of_var:
@@ -423,7 +424,7 @@ class GaussianDistribution(BaseDistribution):
             * np.power(abs(np.linalg.det(sigma)), 0.5)
         )
 
-        return CanonicalDistribution(self.variables, K, h, g)
+        return CanonicalDistribution(self.variables, K.copy(), h, g)
 
     def _operate(self, other, operation, inplace=True):
         """
